@@ -24,7 +24,7 @@ pub static DEF: PropertyDef = PropertyDef {
     exhaustive_note: "none (sampled programs and histories)",
     generate,
     execute,
-    must_hit: &["fault.observer.change_notified", "fault.observer.removed_then_silent", "fault.observer.setvar_notified", "fault.observer.after_reset_notified", "fault.observer.after_restore_notified", "probe.snapshot_restored", "fault.observer.unchanged_continue"],
+    must_hit: &["fault.observer.notified_after_unhandled_error_and_reset", "fault.observer.change_notified", "fault.observer.removed_then_silent", "fault.observer.setvar_notified", "fault.observer.after_reset_notified", "fault.observer.after_restore_notified", "probe.snapshot_restored", "fault.observer.unchanged_continue"],
     timeout_s: 30,
     hang_class: None,
     sub_builds: &[],
@@ -36,6 +36,9 @@ fn generate(corpus: &Corpus, tier: Tier, run: u64, rng: &mut Rng) -> Option<Case
     prof.generated_pct = 80;
     prof.gcfg.assign_heavy = true;
     prof.gcfg.externals = true;
+    // runtime errors and warnings on the way: notifications must keep working after an unhandled
+    // error and the reset that follows it
+    prof.gcfg.message_sites = rng.chance(1, 3);
     let prog = pick_program(corpus, rng, &prof)?;
     if prog.info.globals.is_empty() {
         return None;
@@ -68,7 +71,7 @@ fn generate(corpus: &Corpus, tier: Tier, run: u64, rng: &mut Rng) -> Option<Case
             }
         }
         match rng.below(14) {
-            0 => ops.push(Op::Reset),
+            0 | 5 => ops.push(Op::Reset),
             1 => {
                 ops.push(Op::Save(0));
                 ops.push(Op::Load(0));
@@ -88,7 +91,9 @@ fn generate(corpus: &Corpus, tier: Tier, run: u64, rng: &mut Rng) -> Option<Case
         ops.push(Op::Choose(rng.below(5) as u32));
     }
     let mut host = default_host(&prog, rng);
-    host.handler = true; // an unhandled error returns before notifications are sent
+    // without a handler an erroring continue returns Err before notifications are sent (that
+    // continue is not checked), but every later continue - after a reset - is
+    host.handler = rng.chance(2, 3);
     for _ in 0..(1 + rng.below(3)) {
         let g = rng.pick(globals).clone();
         let o = rng.below(3) as u8;
@@ -142,6 +147,8 @@ fn execute(case: &Case) -> CaseResult {
     let mut removed_pairs: Vec<(u8, String)> = Vec::new();
     let mut since_reset = false;
     let mut since_restore = false;
+    let mut unhandled_error_then_reset = false;
+    let mut unhandled_error = false;
     for (i, op) in case.ops.iter().enumerate() {
         let at = format!("op {i} {}", op.short());
         let regs_before = h.regs.clone();
@@ -181,7 +188,13 @@ fn execute(case: &Case) -> CaseResult {
             Op::Observe { obs, var } if matches!(r, Res::Ok(_)) => {
                 removed_pairs.retain(|p| !(p.0 == *obs % 4 && &p.1 == var));
             }
-            Op::Reset => since_reset = true,
+            Op::Reset => {
+                since_reset = true;
+                if unhandled_error {
+                    unhandled_error_then_reset = true;
+                    unhandled_error = false;
+                }
+            }
             Op::CrashRestore(_) | Op::Load(_) => since_restore = true,
             _ => {}
         }
@@ -189,6 +202,9 @@ fn execute(case: &Case) -> CaseResult {
             Op::Continue if could => {
                 let after = poll(&h);
                 if !matches!(r, Res::Ok(_)) {
+                    if matches!(&r, Res::Err(_, m) if m.contains("Ink had")) {
+                        unhandled_error = true;
+                    }
                     continue; // not a completed continue
                 }
                 // notifications come after the continue's work (its last external call)
@@ -236,6 +252,9 @@ fn execute(case: &Case) -> CaseResult {
                             continue;
                         }
                         res.stats.inc("fault.observer.change_notified");
+                        if unhandled_error_then_reset {
+                            res.stats.inc("fault.observer.notified_after_unhandled_error_and_reset");
+                        }
                         res.nontrivial = true;
                         if since_reset {
                             res.stats.inc("fault.observer.after_reset_notified");
